@@ -183,7 +183,9 @@ PROPS = {
     "C18": dict(
         modules=["bp_metrics"],
         contracts=[f"{BPM}:CapacityCalculator.calculate", f"{BPM}:SoCCalculator.calculate",
-                   "frequenz.sdk.timeseries.battery_pool._methods:SendOnUpdate.update_working_batteries"],
+                   "frequenz.sdk.timeseries.battery_pool._methods:SendOnUpdate.update_working_batteries",
+                   "frequenz.sdk.timeseries.battery_pool._battery_pool:BatteryPool.soc",
+                   "frequenz.sdk.timeseries.battery_pool._battery_pool:BatteryPool.capacity"],
         lemmas=["scaled_soc_is_monotone_and_bounded", "usable_capacity_scales_linearly",
                 "pool_soc_is_monotone_in_every_battery_soc"],
         bounded=[],
@@ -205,7 +207,7 @@ PROPS = {
         contracts=[f"{BMGR}._get_bounds#one_group", f"{BMGR}._get_bounds#two_groups",
                    f"{BMGR}._check_request#one_group", f"{BMGR}._check_request#two_groups",
                    f"{ALGO}:_aggregate_battery_power_bounds#n1", f"{ALGO}:_aggregate_battery_power_bounds#n2",
-                   f"{ALGO}:_aggregate_battery_power_bounds#n3",
+                   f"{ALGO}:_aggregate_battery_power_bounds#n3", f"{ALGO}:AggregatedBatteryData.__init__",
                    f"{BPM}:PowerBoundsCalculator.calculate"],
         lemmas=["advertised_power_covers_every_group_minimum"],
         bounded=[],
